@@ -104,13 +104,111 @@ DOC_SHAPES = [
 ]
 
 
-def doc(script, shape=None, indent=""):
-    script.ndoc += 1
-    n = script.ndoc
+def doc(script, shape=None, indent="", id=None):
+    if id is None:
+        script.ndoc += 1
+        n, label = script.ndoc, str(script.ndoc)
+    else:
+        n, label = id, "%02d" % id
     tpl, exp = DOC_SHAPES[shape if shape is not None else script.rng.randrange(len(DOC_SHAPES))]
-    txt = tpl.replace("{i}", indent).replace("{n}", str(n))
-    script.docs[str(n)] = exp.replace("{n}", str(n))
+    txt = tpl.replace("{i}", indent).replace("{n}", label)
+    script.docs[str(n)] = exp.replace("{n}", label)
     return _ml("doc", txt, id=n)
+
+
+# ---- the layout alphabet explored exhaustively by MCLexer.tla -----------------
+GAPS = [
+    [("sp", " ")], [("nl",)], [("nl",), ("nl",)], [("sp", " "), ("lc", "// c"), ("nl",)], [("bc", "/* c */")], [("bc", "/* a\n b */")],
+    [("doc", 0)], [("doc", 0), ("nl",)], [("doc", 0), ("nl",), ("nl",)], [("doc", 3), ("nl",)],
+    [("nl",), ("doc", 0), ("sp", " "), ("bc", "/* c */"), ("nl",)], [("doc", 0), ("nl",), ("lc", "// c"), ("nl",)],
+    [("sp", "\r"), ("nl",)], [("sp", "\t")], [("doc", 4), ("nl",)], [("bc", "/* a\n b */"), ("nl",)], [("doc", 2), ("nl",)],
+    [("doc", 0), ("bc", "/*\n*/")],
+]
+
+
+def gap_atoms(script, g, i):
+    """the atoms of gap number g (1-based) standing in front of token i"""
+    out = []
+    for a in GAPS[g - 1]:
+        if a[0] == "sp":
+            out.append(sp(a[1]))
+        elif a[0] == "nl":
+            out.append(nl())
+        elif a[0] == "lc":
+            out.append(lc(a[1]))
+        elif a[0] == "bc":
+            out.append(bc(a[1]))
+        else:
+            out.append(doc(script, shape=a[1], id=i))
+    return out
+
+
+def fixed_layout(gaps):
+    """layout callback that puts gap gaps[i-1] (0 = trivial) in front of token i, the last one at the end"""
+    state = {"i": 0}
+
+    def layout(script, left, right):
+        state["i"] += 1
+        i = state["i"]
+        g = gaps[i - 1] if i <= len(gaps) else 0
+        if g == 0:
+            return [sp()] if needs_sep(left, right) else []
+        return gap_atoms(script, g, i)
+    return layout
+
+
+def export_gaps():
+    class _S:
+        docs = {}
+    return [{"atoms": [strip_item(a) for a in gap_atoms(_S(), g, 0)]} for g in range(1, len(GAPS) + 1)]
+
+
+def skeleton(seed, gaps=(), **kw):
+    rng = random.Random(seed)
+    g = Gen(rng, fixed_layout(list(gaps)))
+    return g.program(**kw)
+
+
+def export_skeleton(script):
+    toks, prev = [], None
+    for it in script.items:
+        if it["k"] != "tok":
+            continue
+        t = strip_item(it)
+        t["sep"] = needs_sep(prev, it)
+        toks.append(t)
+        prev = it
+    return {"toks": toks,
+            "posnodes": [n["i"] for n in script.nodes if n["mk"] != "none"],
+            "nextnodes": [n["i"] for n in script.nodes if n["mk"] == "next"],
+            "docnodes": [n["i"] for n in script.nodes if n["hasdoc"]]}
+
+
+def pick_skeletons(count, maxtoks, seed0=0, tries=4000):
+    """small documents that together cover every node kind / marker kind / first-token kind"""
+    cands = []
+    for sd in range(seed0, seed0 + tries):
+        rng = random.Random(sd)
+        s = skeleton(sd, nheaders=rng.choice([0, 0, 1]), ndefs=rng.choice([1, 1, 2]))
+        nt = sum(1 for it in s.items if it["k"] == "tok")
+        if 2 <= nt <= maxtoks:
+            feats = set()
+            for n in s.nodes:
+                feats.add((n["k"], n["mk"]))
+            for it in s.items:
+                if it["k"] == "tok" and it["pre"]:
+                    feats.add(("first", it["kw"], tuple(m["m"] for m in it["pre"])))
+            cands.append((sd, nt, feats))
+    chosen, covered = [], set()
+    while cands and len(chosen) < count:
+        best = max(cands, key=lambda c: (len(c[2] - covered), -c[1]))
+        if not best[2] - covered and len(chosen) >= 6:
+            break
+        chosen.append(best[0])
+        covered |= best[2]
+        cands.remove(best)
+    return chosen, covered
+
 
 
 # ---- layouts ----------------------------------------------------------------
